@@ -1140,6 +1140,29 @@ func main() {
 	if skipped > 0 {
 		rep.Cap("deadline reached: %d of %d (b,n) product/constructor/wire tasks not executed (order: n=4096, 256, then 130 down to 0, b from 32 down)", skipped, len(tasks))
 	}
+	// (x) every raw long count: the (b,n) menu above reaches long counts 0..65, 128, 256, ... only; a wire routine
+	// working in blocks of k longs has its boundary at multiples of k, whatever k is. For three widths, every
+	// count of raw longs 0..600, with the last long full and with one value missing from it: constructor and wire.
+	var everyLongs int64
+	var lt [][2]int
+	for _, b := range []int{1, 7, 32} {
+		per := 64 / b
+		for l := 0; l <= 600; l++ {
+			lt = append(lt, [2]int{b, l * per})
+			if l > 0 {
+				lt = append(lt, [2]int{b, l*per - 1})
+			}
+		}
+	}
+	engine.ParallelFor(len(lt), func(_, i int) {
+		b, n := lt[i][0], lt[i][1]
+		runCtor(Case{Part: "ctor", B: b, N: n, Init: "count"})
+		runWire(Case{Part: "wire", B: b, N: n, Init: "count", B2: b})
+		runWire(Case{Part: "wire", B: b, N: n, Init: "mask", B2: 32})
+		atomic.AddInt64(&everyLongs, 3)
+		rep.Eval(3)
+	})
+	rep.Count("every_raw_long_count_0..600_cases", everyLongs)
 	rep.Count("bfs_spaces_(b,n)_with_b*n<=8", bfsSpaces)
 	rep.Count("bfs_states", bfsStates)
 	rep.Count("bfs_transitions", bfsTrans)
